@@ -1,4 +1,3 @@
-(* WIP *)
 (* C36 — Shutdown closes every connection and waits for all handlers.
    Statements only; proofs are [exact lemma] or vm_compute witnesses.
    Model: Conc/Shutdown.v — accept loop, one handler per connection (ClientsWg.Add inside the
